@@ -9,6 +9,7 @@ import PyImpSpec.Select
 import PyImpSpec.Progress
 import PyImpSpec.Ident
 import PyImpSpec.Tikz
+import PyImpSpec.Registry
 
 /-! Line-protocol driver: one request per line (`<model> <op> <args…>`), one canonical reply per line.
 Run with `lake env lean --run Driver/Main.lean`.  The harness sends the same inputs to the real
@@ -172,6 +173,7 @@ def obs (d : DataSet.DS) : String :=
 structure DState where
   ds : List (Nat × DataSet.DS) := []
   els : List (Nat × String × Param.El) := []
+  reg : Registry.State := ⟨[], [], [], [], []⟩
 
 def DState.get (st : DState) (k : Nat) : Option DataSet.DS := (st.ds.find? (·.1 = k)).map (·.2)
 def DState.put (st : DState) (k : Nat) (d : DataSet.DS) : DState :=
@@ -381,12 +383,56 @@ def paStep (st : DState) (args : List String) : DState × String :=
     | some (_, e) => (st, "ok " ++ showEl e)
   | _ => (st, "bad-op")
 
+
+/-! ### element registry -/
+
+def parseKV (s : String) : List (String × Int) :=
+  if s = "-" then [] else (s.splitOn ";").filterMap fun p =>
+    match p.splitOn ":" with
+    | [k, v] => some (decodeHex k, v.toInt!)
+    | _ => none
+
+def parseSymCls (s : String) : List (String × Nat) :=
+  if s = "-" then [] else (s.splitOn ",").filterMap fun p =>
+    match p.splitOn ":" with
+    | [k, v] => some (decodeHex k, v.toNat!)
+    | _ => none
+
+def showSymCls (l : List (String × Nat)) : String := ",".intercalate (l.map fun p => s!"{p.1}:{p.2}")
+
+def regObs (st : Registry.State) : String :=
+  let o := Registry.observe st
+  "|".intercalate (o.1.map showSymCls) ++ " " ++
+    "|".intercalate (o.2.map fun p => s!"{p.1}=" ++ ";".intercalate (p.2.map fun kv => s!"{kv.1}:{kv.2}"))
+
+def regStep (st : DState) (args : List String) : DState × String :=
+  let fin := fun (r : Registry.State × Option String) =>
+    ({ st with reg := r.1 }, (match r.2 with | none => "ok " | some e => s!"err {e} ") ++ regObs r.1)
+  match args with
+  | ["init", defaults, privates, params] =>
+    let ds := parseSymCls defaults
+    let cp : List (Nat × List (String × Int)) := if params = "-" then [] else (params.splitOn "|").filterMap fun p =>
+      match p.splitOn "=" with
+      | [c, kv] => some (c.toNat!, parseKV kv)
+      | _ => none
+    let dp := ds.map fun kc => (kc.1, ((cp.find? (·.1 = kc.2)).map (·.2)).getD [])
+    let r : Registry.State := ⟨ds, ds, (parseSymCls privates), dp, cp⟩
+    ({ st with reg := r }, "ok " ++ regObs r)
+  | ["register", cls, sym, sok, cons, priv, validate, params] =>
+    fin (Registry.register st.reg ⟨cls.toNat!, decodeHex sym, sok = "1", cons = "1", parseKV params⟩ (priv = "1") (validate = "1"))
+  | ["remove", cs] => fin (Registry.remove st.reg (if cs = "-" then [] else (cs.splitOn ",").map String.toNat!))
+  | ["reset", e, d] => fin (Registry.reset st.reg (e = "1") (d = "1"), none)
+  | ["setdefault", cls, key, v] => fin (Registry.setDefault st.reg cls.toNat! (decodeHex key) v.toInt!)
+  | ["obs"] => (st, "ok " ++ regObs st.reg)
+  | _ => (st, "bad-op")
+
 def step (st : DState) (line : String) : DState × String :=
   match line.splitOn " " with
   | ["cdc", fl, hex] => (st, cdcReply fl (decodeHex hex))
   | ["cdc", fl] => (st, cdcReply fl "")
   | "ds" :: args => dsStep st args
   | "pa" :: args => paStep st args
+  | "reg" :: args => regStep st args
   | "prog" :: npct :: total :: recent :: toks => (st, progReply npct total recent toks)
   | "zprog" :: args => (st, zprogReply args)
   | ["fprog", m, w] => (st, s!"ok {Prog.fitTotal m.toNat! w.toNat!} {Prog.fitIncrements m.toNat! w.toNat!}")
